@@ -196,6 +196,8 @@ class StmtMixin:
                 raise Unsupported("slice store")
             if isinstance(target.value, ast.Attribute):
                 self.check_at(st, fr, "store[]:" + target.value.attr, v, index=idx, node=target)
+            elif isinstance(target.value, ast.Name):
+                self.check_at(st, fr, "store[]:" + target.value.id, v, index=idx, node=target)
             self.store_index(base, idx, v, target, fr)
             return
         raise Unsupported(f"assignment target {type(target).__name__}")
